@@ -15,7 +15,8 @@ THEOREMS = ['WV.C07.corr_linear', 'WV.C07.padIdx_linear', 'WV.C07.afb1dOne_symme
             'WV.C07L.alongW_lin', 'WV.C07L.alongH_lin', 'WV.C07L.afb1dOne_some_pos', 'WV.C07L.AFB2D_forward_rep', 'WV.C07L.DWTForward_rep',
             'WV.C07L.DWTForward_linear', 'WV.C07L.DWTForward_raises_by_shape', 'WV.C07L.DWTForward_slice',
             'WV.C07S.genT_total', 'WV.C07S.genT_none', 'WV.C07S.gen2d_rep', 'WV.C07S.afb1dAtrousOne_some_pos', 'WV.C07S.SWTForward_rep',
-            'WV.C07S.SWTForward_linear', 'WV.C07S.SWTForward_raises_by_shape', 'WV.C07S.SWTForward_slice']
+            'WV.C07S.SWTForward_linear', 'WV.C07S.SWTForward_raises_by_shape', 'WV.C07S.SWTForward_slice',
+            'WV.C07I.lin2_idwt', 'WV.C07I.idwt2_linear', 'WV.C07I.stepS2_linear', 'WV.C07I.waverec2_linear', 'WV.C07I.DWTInverse_linear', 'WV.C07I.DWTInverse_per_linear']
 TABLE = dict(I1); TABLE.update(I2)
 
 
